@@ -82,7 +82,8 @@ Print Assumptions C14_resend_window.
 
 (* The general form: ANY set of tasks whose code is any mix of send_msg of new messages,
    send_test_req, _state_set hooks, plain hooks, role assignments and ResendRequest services (IResend,
-   which unfolds into should_replay hooks, PossDup replays and gap fills).  safe_outcome is the
+   which unfolds into should_replay hooks, PossDup replays and gap fills; IFinally, the state-restoring
+   finally clause around it, including its hook on the exception path).  safe_outcome is the
    nine-clause conjunction above. *)
 Theorem C14_safe_tasks : forall (w0 : world) (ts : list task) (sched : list nat),
   init_ok w0 -> Forall fresh_task ts ->
@@ -134,6 +135,17 @@ Example C14_heartbeat_inflight_example :
   /\ map fst (rows (c_w c)) = [1; 2; 3] /\ sout (c_w c) = 3 /\ nout (c_w c) = 4 /\ st (c_w c) = S_ACTIVE.
 Proof. exact heartbeat_inflight_example. Qed.
 Print Assumptions C14_heartbeat_inflight_example.
+
+(* A request that cannot be served (BeginSeqNo 7 with 2 messages sent): AssertionError swallowed by the reader
+   after the finally clause around _process_resend restored state ACTIVE (its on_state_change hook is one more
+   suspension point, schedule [R;R;S;R;S]); the concurrent send gets number 3. *)
+Example C14_resend_unservable_example :
+  let c := run_sched un_cfg un_sched in
+  fifo_sched un_cfg un_sched = true /\ valid_sched un_cfg un_sched = true /\ all_done c = true
+  /\ map t_exc (c_ts c) = [Some EAssert; None] /\ wire_view (c_w c) = [(3, false, 9)]
+  /\ st (c_w c) = S_ACTIVE /\ sout (c_w c) = 3 /\ nout (c_w c) = 4.
+Proof. exact resend_unservable_example. Qed.
+Print Assumptions C14_resend_unservable_example.
 
 (* The wake-up rule is needed for the counter clause: two senders, LIFO wake-up [0;1;1;0]:
    wire 1,2 both journaled, stored counter 1, next_num_out 3.  (Not a library defect: asyncio wakes
